@@ -218,14 +218,26 @@ func logf(format string, a ...any) { oplog = append(oplog, fmt.Sprintf(format, a
 func fault(op, p string) *Fault {
 	key := op + " " + p
 	counts[key]++
+	counts[op+" *"]++
 	for _, f := range faults {
-		if f.Op == op && norm(f.Path) == p && f.Nth == counts[key] && !f.Fired {
+		match := (f.Path == "*" && f.Nth == counts[op+" *"]) || (f.Path != "*" && norm(f.Path) == p && f.Nth == counts[key])
+		if f.Op == op && match && !f.Fired {
 			f.Fired = true
 			logf("FAULT %s %s #%d -> %s", op, p, f.Nth, f.Err)
+			if f.Err == "CRASH" && op != "write" {
+				crash()
+			}
 			return f
 		}
 	}
 	return nil
+}
+
+// crash: the process dies at this very operation (kill -9, power loss): nothing after it runs.
+// The disk image is flushed as it is; the driver may then discard what was not made durable.
+func crash() {
+	Flush()
+	os.Exit(137)
 }
 
 func parentOK(p string) error {
@@ -373,7 +385,9 @@ func (f *File) Write(b []byte) (int, error) {
 	}
 	k := len(b)
 	var ferr error
+	crashWrite := false
 	if ft := fault("write", f.p); ft != nil {
+		crashWrite = ft.Err == "CRASH"
 		if ft.After < k {
 			k = ft.After
 		}
@@ -391,6 +405,9 @@ func (f *File) Write(b []byte) (int, error) {
 	copy(f.n.Data[f.off:end], b[:k])
 	logf("write %s off=%d len=%d wrote=%d err=%v", f.p, f.off, len(b), k, ferr)
 	f.off = end
+	if crashWrite {
+		crash()
+	}
 	if ferr != nil {
 		return k, ferr
 	}
@@ -570,6 +587,9 @@ func RemoveAll(name string) error {
 func Rename(oldname, newname string) error {
 	Load()
 	o, n := norm(oldname), norm(newname)
+	if ft := fault("rename", o); ft != nil {
+		return &PathError{Op: "rename", Path: oldname, Err: errno(ft.Err)}
+	}
 	nd, ok := disk[o]
 	if !ok {
 		return &PathError{Op: "rename", Path: oldname, Err: syscall.ENOENT}
